@@ -7,7 +7,7 @@ CONSTANTS
   StepBehs = {"refuse", "rst", "stall", "bad", "mute", "close_orderly", "close_abrupt", "healthy", "down"}
   CloseDs = {0, 600}
   MaxStall = 1
-  MaxMute = 1
+  MaxMute = 2
   MaxOpen = 2
   MaxClose = 2
 INVARIANTS TypeOK DelaySequence WaitedIsPrescribed ResetAfterSuccess GiveUpExactly NonRetryableEndsAtOnce ListenerAlive NoLostRequest Emit
